@@ -184,8 +184,8 @@ TwinStopCfgs(r) == IF r = "A" THEN {[BaseCfg EXCEPT !.ctl = c, !.pen = p, !.twin
 TwinObsCfgs(r) == IF r = "A" THEN {[BaseCfg EXCEPT !.ctl = c, !.pen = p, !.twin = "C09", !.ncb = 0, !.collectPath = FALSE, !.limit = 2] : c \in {"Exact", "DistRatio"}, p \in {"DualNorm", "ObjFilter"}}
                   ELSE {[cfg["A"] EXCEPT !.display = ds, !.ncb = n, !.collectPath = cp, !.debug = dbg] :
                           ds \in {"never", "always", "clock"}, n \in {0, 1}, cp \in BOOLEAN, dbg \in BOOLEAN}
-TwinHistCfgs(r) == IF r = "A" THEN {[BaseCfg EXCEPT !.ctl = c, !.pen = p, !.algKey = 2, !.twin = "C10", !.limit = 1] : c \in {"DistRatio"}, p \in {"DualNorm", "ObjFilter"}}
-                   ELSE {[BaseCfg EXCEPT !.ctl = "DistRatio", !.pen = p, !.twin = "C10", !.limit = 2] : p \in {"DualNorm", "ObjFilter"}}
+TwinHistCfgs(r) == IF r = "A" THEN {[BaseCfg EXCEPT !.ctl = c, !.pen = "ObjFilter", !.algKey = 2, !.twin = "C10", !.limit = 1] : c \in {"Exact", "DistRatio"}}
+                   ELSE {[BaseCfg EXCEPT !.ctl = c, !.pen = "ObjFilter", !.twin = "C10", !.limit = 1] : c \in {"Exact", "DistRatio"}}
 
 (* simulation / replay space: one run, every controller, policy, limit, deadline and display mode *)
 SimCfgs(r) == {[BaseCfg EXCEPT !.ctl = c, !.pen = p, !.limit = l, !.deadline = d, !.display = ds, !.collectPath = TRUE] :
